@@ -3,6 +3,8 @@
 package main
 
 import (
+	fingerproxy "github.com/wi1dcard/fingerproxy"
+	"os"
 	"crypto/tls"
 	"errors"
 	"fmt"
@@ -224,7 +226,43 @@ func init() {
 		return "forward"
 	})
 
+	// envbool val=<hex|-> def=<0|1>: how a boolean switch such as ENABLE_KUBERNETES_PROBE is read from the environment
+	registerOp("envbool", func(a []string) string {
+		val, def := "-", false
+		for _, t := range a {
+			if strings.HasPrefix(t, "val=") {
+				val = t[4:]
+			} else if t == "def=1" {
+				def = true
+			}
+		}
+		const key = "VERIF_ENVBOOL_PROBE"
+		if val == "-" {
+			os.Unsetenv(key)
+		} else {
+			os.Setenv(key, string(unhx(val)))
+		}
+		defer os.Unsetenv(key)
+		if fingerproxy.VerifEnvBool(key, def) {
+			return "1"
+		}
+		return "0"
+	})
+
 	register("rw", "HTTPHandler.ServeHTTP in-process with scripted injectors and a recording transport", func(c *ctx) {
+		for _, v := range []string{"-", "true", "false", "True", "False", "TRUE", "FALSE", "tRuE", "fAlSe", "1", "0", "yes", "no", "", " false", "false ", "falsee"} {
+			for _, def := range []int{0, 1} {
+				hv := "-"
+				if v != "-" {
+					hv = hx([]byte(v))
+					if v == "" {
+						hv = ""
+					}
+				}
+				c.tag("envbool")
+				c.op(fmt.Sprintf("envbool val=%s def=%d", hv, def))
+			}
+		}
 		defNames := []string{"X-JA3-Fingerprint", "X-JA4-Fingerprint", "X-HTTP2-Fingerprint"}
 		for i := 0; i < c.count; i++ {
 			r := c.rng.fork()
